@@ -91,6 +91,10 @@ func (u *Unit) checkFrame(ct *Contract, r retInfo, alloc0 Term, penv *Env) {
 		var f Term
 		s := u.heapSort[n]
 		switch {
+		case strings.HasPrefix(s, "(Array Iface "):
+			// ghost state keyed by interface values (wildcard ghosts): unchanged for every key whose referent
+			// existed at entry; the ghost state of an object allocated here belongs to the allocation
+			f = Term{fmt.Sprintf("(forall ((r Iface)) (=> (< (irefof r) %s) (= %s %s)))", alloc0.S, sel(cur, Term{"r", "Iface"}).S, sel(init, Term{"r", "Iface"}).S), "Bool"}
 		case strings.HasPrefix(n, "G:") || !strings.HasPrefix(s, "(Array Int "):
 			f = eq2(cur, init)
 		default:
